@@ -98,6 +98,8 @@ class World:
         while self.pool[k]["recipe"] is not None:
             chain.append(self.pool[k]["recipe"])
             k = self.pool[k]["parent"]
+        if self.pool[k]["parent"] is not None:
+            return      # the chain starts at an object assembled from two pool objects (new_joint): no single-chain reference
         ref = World()
         ref.is_reference = True
         ref.init_graph(self.spec)
@@ -259,6 +261,18 @@ class World:
                 r, _ = refuses(lambda: obj(**{n: self.values[n] * scale for n in target}))
                 if r:
                     break
+        elif kind == "new_joint" and not is_model:
+            # a new joint distribution assembled from objects of the pool (e.g. an already reduced density and an untouched one)
+            D = cuqi.distribution
+            cands = [p for p in self.pool if isinstance(p["obj"], D.Distribution) and not isinstance(p["obj"], D.JointDistribution)]
+            if isinstance(obj, D.Distribution) and not isinstance(obj, D.JointDistribution) and cands:
+                other = cands[op.get("j", 0) % len(cands)]["obj"]
+                r1, n1 = refuses(lambda: obj.name)
+                r2, n2 = refuses(lambda: other.name)
+                if not r1 and not r2 and n1 != n2:
+                    r, J = refuses(lambda: D.JointDistribution(obj, other))
+                    if not r:
+                        self.add(J, i, f"joint({e['label']}+{n2})")
         elif kind == "run_sampler" and not is_model:
             self.run_sampler(obj, op)
 
@@ -351,6 +365,11 @@ def make_machine(rec, tier):
         def apply_model(self, i, j):
             self.nsteps += 1
             self.guarded(lambda: self.w.apply({"op": "apply_model", "i": i, "j": j}))
+
+        @rule(i=st.integers(0, 40), j=st.integers(0, 20))
+        def new_joint(self, i, j):
+            self.nsteps += 1
+            self.guarded(lambda: self.w.apply({"op": "new_joint", "i": i, "j": j}))
 
         @rule(i=st.integers(0, 40))
         def recondition_loop(self, i):
